@@ -387,6 +387,13 @@ func init() {
 	registerRule(&RuleDef{ID: "K-ATOMKEYS", Min: 4, Doc: "the OvsMap decoder admits every atom type (string, float64, bool, UUID) as a map key", Run: ruleKATOMKEYS})
 	add("C09", "K-ATOMKEYS")
 	add("C12", "K-ATOMKEYS")
+	registerRule(&RuleDef{ID: "K-JSONQUOTE", Min: 11, Doc: "no MarshalJSON method of package ovsdb quotes strings with Go syntax (strconv.Quote*, %q): only encoding/json writes strings to the wire", Run: ruleKJSONQUOTE})
+	add("C09", "K-JSONQUOTE")
+	add("C12", "K-JSONQUOTE")
+	add("C14", "A3")
+	registerRule(&RuleDef{ID: "S-CONNFLAG", Min: 4, Doc: "rpcClient == nil implies !connected: every statement dropping the connection clears connected in the same straight-line code; only connect() sets it", Run: ruleSCONNFLAG})
+	add("C16", "S-CONNFLAG")
+	add("C18", "DEFER-DISARM")
 	registerRule(&RuleDef{ID: "ERR-USE-CODEC", Min: 40, Doc: "in the wire codec and the mapper an error that is tested and set is used or ends the function (three listed exceptions)", Run: ruleERRUSECODEC})
 	add("C09", "ERR-USE-CODEC")
 	add("C12", "ERR-USE-CODEC")
